@@ -72,6 +72,36 @@ fn show(args: &[String]) -> Result<i32, String> {
 // worker
 // ---------------------------------------------------------------------------------------------
 
+/// What a long-lived process has typically done before the call that matters: some parsing and rendering under
+/// whatever environment it was started in. One-time initialisation in the code under test (statics, OnceLock,
+/// lazily built tables) is decided here; a quarter of the workers start with a populated environment, a quarter
+/// with trace logging, a quarter with both. Without such state in the code under test this changes nothing.
+pub fn process_prologue(offset: u64) {
+    use quick_xml::reader::Reader;
+    use xml_schema_generator::{extend_struct, into_struct, Options, SortBy};
+    let env_on = offset % 4 == 1 || offset % 4 == 3;
+    let log_on = offset % 4 >= 2;
+    crate::set_logging(log_on);
+    let _ = crate::entropy::with_env(0x5eed_0000 + offset as u128, env_on, || {
+        let _ = std::panic::catch_unwind(|| {
+            let mut r = Reader::from_str("<Zeta b=\"1\" A=\"2\" xml:lang=\"x\"><alpha>t</alpha><Beta/><alpha/></Zeta>");
+            if let Ok(t) = into_struct(&mut r) {
+                let mut r2 = Reader::from_str("<Zeta c=\"3\"><gamma><alpha/></gamma></Zeta>");
+                if let Ok(t) = extend_struct(&mut r2, t) {
+                    for sx in [false, true] {
+                        for by_name in [true, false] {
+                            let mut o = if sx { Options::serde_xml_rs() } else { Options::quick_xml_de() };
+                            o.sort = if by_name { SortBy::XmlName } else { SortBy::Unsorted };
+                            let _ = t.to_serde_struct(&o);
+                        }
+                    }
+                }
+            }
+        });
+    });
+    crate::set_logging(false);
+}
+
 fn worker(args: &[String]) -> Result<i32, String> {
     // worker <ID> <seed> <offset> <stride> <total> <stopfile> <samples>
     let id = &args[2];
@@ -83,6 +113,7 @@ fn worker(args: &[String]) -> Result<i32, String> {
     let want_samples: usize = args[8].parse().map_err(|_| "samples")?;
     let p = prop(id)?;
     crate::quiet_panics();
+    process_prologue(offset);
     let out = std::io::stdout();
     let mut out = std::io::BufWriter::with_capacity(1 << 16, out.lock());
     let mut ctr = Ctr::new();
@@ -677,6 +708,7 @@ fn shrink_cmd(args: &[String]) -> Result<i32, String> {
 
 /// prefix <ID> <seed> <offset> <stride> <upto> <out>: execute runs offset, offset+stride, .. upto in this one process
 fn run_prefix(p: &dyn Prop, id: &str, seed: u64, offset: u64, stride: u64, upto: u64) -> Result<Option<(String, String)>, String> {
+    process_prologue(offset);
     let mut run = offset;
     let mut ctr = Ctr::new();
     while run < upto {
